@@ -419,6 +419,16 @@ def run(tier: str) -> int:
     for _ in range(ck.budget(1500, 30000)):
         shapes.append(rand_arg(rng, rng.randint(0, 5), rng.choice([0.0, 0.05, 0.15])) if rng.random() < 0.8
                       else rand_seq(rng, 2, 0.05))
+    # deep nesting: a TagList / list / tuple below d levels of list and tuple nesting, d around typical recursion and table
+    # limits and around every integer the source has started to mention (harness/literals.py)
+    for d in sorted(set(gen.BOUNDARY_LEVELS)):
+        if d > 130:
+            continue
+        for inner in (("tl", [S("a"), S("b")]), ("list", [S("c"), ("tl", [S("d")])]), ("tuple", [I(1), ("tl", [])])):
+            a = inner
+            for k in range(d):
+                a = ("list" if k % 2 == 0 else "tuple", [a] + ([S("s")] if k % 17 == 0 else []))
+            shapes.append(a)
     for a in shapes:
         for fn in ("c14_pred", "c14_t2n", "c14_flatten"):
             lines.append(f"{fn} {earg(a)}")
